@@ -55,6 +55,9 @@ pub enum Op {
     AddRoute { offer: usize, ask: usize, hops: Vec<[usize; 2]> },
     RemoveRoute { offer: usize, ask: usize },
     RouterSwap { user: usize, hops: Vec<[usize; 2]>, amount: u128 },
+    /// the owner registers a native denom's decimals again, with another value, while pairs and trios over
+    /// that denom exist (their entries keep what they were created with)
+    SetNativeDecimals { asset: usize, decimals: u8 },
 }
 
 #[derive(Serialize, Deserialize, Clone, Debug, PartialEq)]
@@ -64,6 +67,8 @@ pub struct Step {
 
 #[derive(Clone, Debug)]
 struct PairE {
+    /// decimals of the two assets as registered at the factory when the pair was created
+    dec: [u8; 2],
     addr: String,
     order: [usize; 2],
     stable: Option<u64>,
@@ -71,6 +76,7 @@ struct PairE {
 }
 #[derive(Clone, Debug)]
 struct TrioE {
+    dec: [u8; 3],
     addr: String,
     order: [usize; 3],
     lp: String,
@@ -153,7 +159,7 @@ impl AllReg {
         }
         let pi = &infos[0];
         let want_infos = self.infos2(&e.order);
-        let want_dec = [self.h.decimals[e.order[0]], self.h.decimals[e.order[1]]];
+        let want_dec = e.dec;
         let want_type = match e.stable {
             Some(a) => PairType::StableSwap { amp: a },
             None => PairType::ConstantProduct,
@@ -194,7 +200,7 @@ impl AllReg {
         }
         let ti = first.unwrap();
         let want_infos = self.infos3(&e.order);
-        let want_dec = [self.h.decimals[e.order[0]], self.h.decimals[e.order[1]], self.h.decimals[e.order[2]]];
+        let want_dec = e.dec;
         if ti.contract_addr != e.addr || ti.asset_infos != want_infos || ti.asset_decimals != want_dec || asset_id(&ti.liquidity_token) != e.lp {
             ctx.fail("C19", "entry_matches_model", "trio", None, format!("trio {:?}: factory entry {:?} differs from what was created ({:?}, decimals {:?}, addr {})", set, ti, want_infos, want_dec, e.addr));
             return;
@@ -677,6 +683,7 @@ impl Scenario for AllReg {
                     Op::Lookups
                 }
             }
+            28 if rng.chance(1, 2) => Op::SetNativeDecimals { asset: rng.idx(n), decimals: *rng.pick(&[6u8, 8, 18, 0]) },
             _ => Op::CreatePair { assets: pick2(rng), stable: None, fault: fault(rng, faults) },
         };
         Some(Step { op })
@@ -734,7 +741,7 @@ impl AllReg {
                 // what did the factory register?
                 match query::<PairInfo, _>(&self.h.app, &pf, &factory::QueryMsg::Pair { asset_infos: self.infos2(&a) }) {
                     Ok(pi) => {
-                        let e = PairE { addr: pi.contract_addr.clone(), order: a, stable: *stable, lp: asset_id(&pi.liquidity_token) };
+                        let e = PairE { dec: [self.h.decimals[a[0]], self.h.decimals[a[1]]], addr: pi.contract_addr.clone(), order: a, stable: *stable, lp: asset_id(&pi.liquidity_token) };
                         self.fresh_addr("pair", &pi.contract_addr, ctx);
                         if self.orphans.iter().any(|o| sorted(&o.1) == set) {
                             ctx.probe("pair_recreated_after_removal");
@@ -817,7 +824,7 @@ impl AllReg {
                 }
                 match query::<TrioInfo, _>(&self.h.app, &pf, &factory::QueryMsg::Trio { asset_infos: self.infos3(&a) }) {
                     Ok(ti) => {
-                        let e = TrioE { addr: ti.contract_addr.clone(), order: a, lp: asset_id(&ti.liquidity_token) };
+                        let e = TrioE { dec: [self.h.decimals[a[0]], self.h.decimals[a[1]], self.h.decimals[a[2]]], addr: ti.contract_addr.clone(), order: a, lp: asset_id(&ti.liquidity_token) };
                         self.fresh_addr("trio", &ti.contract_addr, ctx);
                         self.trios.insert(set.clone(), e.clone());
                         ctx.state_of(&format!("trios:{:?}", self.trios.keys().collect::<Vec<_>>()));
@@ -942,6 +949,23 @@ impl AllReg {
                 }
                 if !ctx.stopped() {
                     self.quick_listing(Reg::Incentives, ctx);
+                }
+            }
+            Op::SetNativeDecimals { asset, decimals } => {
+                if let AssetInfo::NativeToken { denom } = self.ai(*asset) {
+                    let r = tx(
+                        &mut self.h.app,
+                        OWNER,
+                        vec![wasm_exec(&self.h.pool_factory.clone(), &factory::ExecuteMsg::AddNativeTokenDecimals { denom: denom.clone(), decimals: *decimals }, vec![cosmwasm_std::coin(1, denom.as_str())])],
+                        Fault::None,
+                    );
+                    ctx.op("set_native_decimals", r.outcome.kind());
+                    ctx.trace(&format!("set_native_decimals:{asset}:{decimals}:{}", r.outcome.kind()));
+                    if r.outcome.is_ok() {
+                        self.h.decimals[*asset] = *decimals;
+                        ctx.probe("native_decimals_registered_again");
+                    }
+                    self.lookups(ctx);
                 }
             }
             Op::Lookups => {
